@@ -117,6 +117,9 @@ pub fn h_depend() {
     let pi = sym::choose("pat", pats.len());
     let qi = sym::choose("path", paths.len());
     let mut x = String::new();
+    // blanks around the whole argument belong to the halves (they are not trimmed away)
+    let (pre, post) = [("", ""), (" ", ""), ("", " "), ("", "\t")][sym::choose("blank", 4)];
+    x.push_str(pre);
     x.push_str(pats[pi]);
     let mut k = 0;
     while k < ncolon {
@@ -128,6 +131,7 @@ pub fn h_depend() {
         }
         k += 1;
     }
+    x.push_str(post);
     let got = Depend::new(&x);
     // split on every ':'
     let mut parts: Vec<&str> = Vec::new();
